@@ -271,6 +271,7 @@ func nestedCaseRun(c *fw.Ctx) {
 	}
 	ops2 = append(ops2, decOp{name: "tag"}, decOp{name: "nested", a: 0}, decOp{name: "offset"}, decOp{name: "nested", a: 1}, decOp{name: "offset"})
 	rq, rp, results, offsets := runDecProgram(fast, in, ops2)
+	reportHeld(c, "decode-nested")
 	c.ModelCmp("decode-nested", rq, rp, stripAlloc)
 	base := len(results) - 5
 	dout := "ok"
